@@ -45,12 +45,20 @@ theorem wordsBytes_even : ∀ (p : Bytes), p.length % 2 = 0 → wordsBytes p = p
     rw [wordsBytes, wordsBytes_even rest (by simp only [List.length_cons] at h; omega)]
 
 theorem splitParams_paramBlock (andx : Bool) (p rest : Bytes) (heven : p.length % 2 = 0)
-    (hwc : wordCountOf andx p ≤ 255) (handx : andx = true → p = []) :
+    (hwc : wordCountOf andx p ≤ 255) :
     splitParams (paramBlock andx p ++ rest) = .ok (wordCountOf andx p, andxBytes andx ++ p, rest) := by
   cases andx with
   | true =>
-    rw [handx rfl]
-    simp [paramBlock, wordCountOf, andxWords, andxBytes, wordsBytes, splitParams]
+    have hw : wordCountOf true p = 2 + p.length / 2 := by simp [wordCountOf, andxWords]; omega
+    rw [hw] at hwc ⊢
+    have hmod : (2 + p.length / 2) % 256 = 2 + p.length / 2 := Nat.mod_eq_of_lt (by omega)
+    have htn : (UInt8.ofNat (2 + p.length / 2)).toNat = 2 + p.length / 2 := toNat_ofNat_lt _ (by omega)
+    have hpos : 2 + p.length / 2 > 0 := by omega
+    simp only [paramBlock, hw, hmod, hpos, if_true, andxBytes, wordsBytes_even p heven, List.cons_append,
+      List.nil_append, splitParams, htn]
+    rw [if_neg (by simp; omega)]
+    have h2 : 2 * (2 + p.length / 2) = p.length + 4 := by omega
+    simp [h2, List.take_succ_cons, List.drop_succ_cons]
   | false =>
     have hw : wordCountOf false p = p.length / 2 := by simp [wordCountOf, andxWords]; omega
     rw [hw] at hwc ⊢
@@ -89,31 +97,29 @@ theorem mem_filter_blk (u : List Slot) (sl : Slot) (h : sl ∈ u) : sl ∈ u.fil
 
 /-! ### what `Mirror` and `consistent` give, unpacked -/
 
-structure MirrorFacts (c : Cmd) (m u : List Slot) : Prop where
+structure MirrorFacts (c : Cmd) (body : List UStmt) (m u : List Slot) : Prop where
+  hbody : bodyU c = some body
   lm : layoutM c.marshal = some m
-  lu : layoutU c.unmarshal = some u
+  lu : layoutU body = some u
   agP : agreeAll (m.filter (·.blk == .P)) (u.filter (·.blk == .P)) = true
   agD : agreeAll (m.filter (·.blk == .D)) (u.filter (·.blk == .D)) = true
   lastP : restOnlyLast (u.filter (·.blk == .P)) = true
   lastD : restOnlyLast (u.filter (·.blk == .D)) = true
-  andx : c.isAndX = true → m.filter (·.blk == .P) = []
   stable : stableM c.marshal = true
-  ok : okU (!(u.filter (·.blk == .P)).isEmpty) (!(u.filter (·.blk == .D)).isEmpty) {} [] c.unmarshal = true
+  ok : okU (!(u.filter (·.blk == .P)).isEmpty) (!(u.filter (·.blk == .D)).isEmpty) {} [] body = true
   covered : ∀ f ∈ c.fields.map (·.1), f ∈ u.map Slot.field
 
-theorem mirror_facts {c : Cmd} (hm : Mirror c = true) : ∃ m u, MirrorFacts c m u := by
+theorem mirror_facts {c : Cmd} (hm : Mirror c = true) : ∃ body m u, MirrorFacts c body m u := by
   unfold Mirror at hm
   split at hm
-  · rename_i m u hlm hlu
-    simp only [mirrorSlots, Bool.and_eq_true, Bool.or_eq_true, Bool.not_eq_true', List.isEmpty_iff,
-      List.all_eq_true, List.contains_iff_mem] at hm
-    obtain ⟨⟨⟨⟨⟨⟨⟨h1, h2⟩, h3⟩, h4⟩, h5⟩, h6⟩, h7⟩, h8⟩ := hm
-    refine ⟨m, u, hlm, hlu, h1, h2, h3, h4, ?_, h6, h7, h8⟩
-    intro ha
-    rcases h5 with h | h
-    · rw [ha] at h; cases h
-    · exact h
   · cases hm
+  · rename_i body hbody
+    split at hm
+    · rename_i m u hlm hlu
+      simp only [mirrorSlots, Bool.and_eq_true, List.all_eq_true, List.contains_iff_mem] at hm
+      obtain ⟨⟨⟨⟨⟨⟨h1, h2⟩, h3⟩, h4⟩, h6⟩, h7⟩, h8⟩ := hm
+      exact ⟨body, m, u, hbody, hlm, hlu, h1, h2, h3, h4, h6, h7, h8⟩
+    · cases hm
 
 theorem agrees_field {a b : Slot} (h : a.agrees b = true) : a.field = b.field := by
   cases a <;> cases b <;> simp only [Slot.agrees, Bool.and_eq_true, beq_iff_eq, Bool.false_eq_true] at h
@@ -133,13 +139,13 @@ theorem agreeAll_fields : ∀ (ms us : List Slot), agreeAll ms us = true → ms.
 /-- everything the round trip establishes, for the two corollaries -/
 theorem mirror_roundtrip_full {C : Codecs} {T : String → Prop} (hC : LawfulCodecs C T) (c : Cmd)
     (hm : Mirror c = true) (hT : ∀ t ∈ c.subTypes, T t) (env0 env : Env) (hc : consistent C c env = true) :
-    ∃ (m u : List Slot) (sM : MState) (d : Env),
-      MirrorFacts c m u ∧ runM C c env = .ok sM ∧ sM.head = [] ∧
+    ∃ (body : List UStmt) (m u : List Slot) (sM : MState) (d : Env),
+      MirrorFacts c body m u ∧ runM C c env = .ok sM ∧ sM.head = [] ∧
       sM.P = layoutBytes C sM.env (m.filter (·.blk == .P)) ∧ sM.D = layoutBytes C sM.env (m.filter (·.blk == .D)) ∧
       (∀ sl ∈ m, SlotFit C T sM.env sl) ∧
       decodeCmd C c env0 (paramBlock c.isAndX sM.P ++ dataBlock sM.D) = .ok d ∧
       ((∀ f ∈ u.map Slot.field, d.get f = sM.env.get f) ∨ c.fields = []) := by
-  obtain ⟨m, u, F⟩ := mirror_facts hm
+  obtain ⟨body, m, u, F⟩ := mirror_facts hm
   unfold consistent at hc
   split at hc
   case h_2 => cases hc
@@ -157,9 +163,7 @@ theorem mirror_roundtrip_full {C : Codecs} {T : String → Prop} (hC : LawfulCod
     cases hb : sl.blk
     · exact hfP (fun s hs => hfitM s (List.mem_filter.mp hs).1) sl (by have := mem_filter_blk u sl hsl; rwa [hb] at this)
     · exact hfD (fun s hs => hfitM s (List.mem_filter.mp hs).1) sl (by have := mem_filter_blk u sl hsl; rwa [hb] at this)
-  have handx : c.isAndX = true → sM.P = [] := by
-    intro ha; rw [hP, F.andx ha]; rfl
-  have hsp := splitParams_paramBlock c.isAndX sM.P (dataBlock sM.D) heven hwc handx
+  have hsp := splitParams_paramBlock c.isAndX sM.P (dataBlock sM.D) heven hwc
   have hsd := splitData_dataBlock sM.D hdl
   -- unmarshal side
   have hrestU : ∀ b, restOnlyLast (u.filter (·.blk == b)) = true := by
@@ -170,29 +174,46 @@ theorem mirror_roundtrip_full {C : Codecs} {T : String → Prop} (hC : LawfulCod
     { P := andxBytes c.isAndX ++ sM.P, D := sM.D,
       Pext := List.replicate (streamCap (andxBytes c.isAndX ++ sM.P).length - (andxBytes c.isAndX ++ sM.P).length) 0,
       Dext := [], wordCount := wordCountOf c.isAndX sM.P, env := env0 }
-  have hinv : Inv C sM.env {} s0.P s0.D s0.offset u := by
+  -- the AndX stanza (if any) hands the command's own parameters to the rest of the program
+  have hgo : ∃ s1 : UState, s1.P = sM.P ∧ s1.D = sM.D ∧ s1.offset = 0 ∧
+      runU.go C s0 c.unmarshal = runU.go C s1 body ∧ relationsHold C sM.env sM.P.length 0 body = true := by
+    have hb := F.hbody
+    unfold bodyU at hb
+    cases ha : c.isAndX with
+    | false =>
+      rw [ha] at hb
+      simp only [Bool.false_eq_true, if_false, Option.some.injEq] at hb
+      subst hb
+      exact ⟨s0, by simp [s0, ha, andxBytes], rfl, rfl, rfl, hrel⟩
+    | true =>
+      rw [ha] at hb
+      simp only [if_true] at hb
+      have h0 : s0.P = 0xFF :: 0x00 :: 0x00 :: 0x00 :: sM.P := by simp [s0, ha, andxBytes]
+      refine ⟨afterAndX s0 0xFF 0x00 0x00 0x00 sM.P, rfl, rfl, rfl,
+        go_andx_prefix C 0xFF 0x00 0x00 0x00 sM.P c.unmarshal body s0 hb h0, ?_⟩
+      rw [← relationsHold_splitAndX C sM.env sM.P.length c.unmarshal body 0 hb]; exact hrel
+  obtain ⟨s1, h1P, h1D, h1o, hgo, hrelB⟩ := hgo
+  have hinv : Inv C sM.env {} s1.P s1.D s1.offset u := by
+    rw [h1P, h1D, h1o]
     refine ⟨?_, ?_, fun _ => rfl⟩
     · intro b _
+      right
       cases b
-      · by_cases ha : c.isAndX = true
-        · left; exact hnilP (F.andx ha)
-        · right
-          have : c.isAndX = false := by simpa using ha
-          show andxBytes c.isAndX ++ sM.P = _
-          rw [this, hP, hbP]; rfl
-      · right
-        show sM.D = _
+      · show sM.P = _
+        rw [hP, hbP]
+      · show sM.D = _
         rw [hD, hbD]
     · intro b hb; cases hb
-  obtain ⟨d, hd, hagree⟩ := runU_go_layout hC sM.env _ _ c.unmarshal u {} [] s0 0 F.lu F.ok hrel hfitU hrestU hinv
+  obtain ⟨d, hd, hagree⟩ := runU_go_layout hC sM.env sM.P.length _ _ body u {} [] s1 0 F.lu F.ok hrelB hfitU hrestU hinv
     (fun f hf => by cases hf)
+  rw [h1P, h1D] at hagree
   have hdec : decodeCmd C c env0 (paramBlock c.isAndX sM.P ++ dataBlock sM.D) = .ok d := by
     unfold decodeCmd
     rw [hsp]
     simp only []
     rw [hsd]
-    exact hd
-  refine ⟨m, u, sM, d, F, hrun, hhead, hP, hD, hfitM, hdec, ?_⟩
+    exact hgo.trans hd
+  refine ⟨body, m, u, sM, d, F, hrun, hhead, hP, hD, hfitM, hdec, ?_⟩
   rcases hne with (hp | hdd) | hemp
   · left
     intro f hf
@@ -201,8 +222,7 @@ theorem mirror_roundtrip_full {C : Codecs} {T : String → Prop} (hC : LawfulCod
     · have : u.filter (·.blk == .P) ≠ [] := by
         intro e; apply hPne; rw [hP, hbP, e]; rfl
       simpa using this
-    · show andxBytes c.isAndX ++ sM.P ≠ []
-      intro e; exact hPne (List.append_eq_nil_iff.mp e).2
+    · exact hPne
   · left
     intro f hf
     have hDne : sM.D ≠ [] := by intro e; rw [e] at hdd; simp at hdd
@@ -218,7 +238,7 @@ theorem mirror_roundtrip_core {C : Codecs} {T : String → Prop} (hC : LawfulCod
     (hm : Mirror c = true) (hT : ∀ t ∈ c.subTypes, T t) (env0 env : Env) (hc : consistent C c env = true) :
     ∃ bs env' d, encodeCmd C c env = .ok bs ∧ envAfterMarshal C c env = .ok env' ∧
       decodeCmd C c env0 bs = .ok d ∧ ∀ f ∈ c.fields.map (·.1), d.get f = env'.get f := by
-  obtain ⟨m, u, sM, d, F, hrun, hhead, _, _, _, hdec, hag⟩ := mirror_roundtrip_full hC c hm hT env0 env hc
+  obtain ⟨_, m, u, sM, d, F, hrun, hhead, _, _, _, hdec, hag⟩ := mirror_roundtrip_full hC c hm hT env0 env hc
   refine ⟨paramBlock c.isAndX sM.P ++ dataBlock sM.D, sM.env, d, ?_, ?_, hdec, ?_⟩
   · simp only [encodeCmd, hrun, hhead, List.nil_append]
   · simp only [envAfterMarshal, hrun]
@@ -232,13 +252,14 @@ theorem mirror_reencode_core {C : Codecs} {T F : String → Prop} (hC : LawfulCo
     (hm : Mirror c = true) (hre : Reencodable c = true) (hT : ∀ t ∈ c.subTypes, T t) (hFt : ∀ t ∈ c.fmtTypes, F t)
     (env0 env : Env) (hc : consistent C c env = true) :
     ∃ bs d, encodeCmd C c env = .ok bs ∧ decodeCmd C c env0 bs = .ok d ∧ encodeCmd C c d = .ok bs := by
-  obtain ⟨m, u, sM, d, Fc, hrun, hhead, hP, hD, hfit, hdec, hag⟩ := mirror_roundtrip_full hC c hm hT env0 env hc
+  obtain ⟨_, m, u, sM, d, Fc, hrun, hhead, hP, hD, hfit, hdec, hag⟩ := mirror_roundtrip_full hC c hm hT env0 env hc
   have henc : encodeCmd C c env = .ok (paramBlock c.isAndX sM.P ++ dataBlock sM.D) := by
     simp only [encodeCmd, hrun, hhead, List.nil_append]
   refine ⟨_, d, henc, hdec, ?_⟩
   unfold Reencodable at hre
-  rw [Fc.lm, Bool.and_eq_true] at hre
-  obtain ⟨hreM, hdecl⟩ := hre
+  rw [Fc.lm, Bool.and_eq_true, Bool.and_eq_true] at hre
+  obtain ⟨⟨hreM, hlenD⟩, hdecl⟩ := hre
+  simp only [List.all_eq_true, List.contains_iff_mem] at hlenD
   rcases hag with hag | hemp
   · -- the decoded fields agree with the sender's on every slot of the layout
     have hmem : ∀ sl ∈ m, sl.field ∈ u.map Slot.field := by
@@ -253,7 +274,7 @@ theorem mirror_reencode_core {C : Codecs} {T F : String → Prop} (hC : LawfulCo
       obtain ⟨sl', hsl', he⟩ := List.mem_map.mp h1
       exact List.mem_map.mpr ⟨sl', (List.mem_filter.mp hsl').1, he⟩
     obtain ⟨t', hr, _, hP', hD', hH'⟩ := runMStmts_again (T := T) hF c.isAndX c.marshal m { env := env } sM { env := d }
-      (u.map Slot.field) Fc.lm Fc.stable hreM hFt hrun hfit hmem hag
+      (u.map Slot.field) Fc.lm Fc.stable hreM hFt (fun g hg => Fc.covered g (hlenD g hg)) hrun hfit hmem hag
     simp only [List.nil_append] at hP' hD'
     have hrun' : runM C c d = .ok t' := hr
     simp only [encodeCmd, hrun', hH', hP', hD', ← hP, ← hD, List.nil_append]
@@ -264,7 +285,13 @@ theorem mirror_reencode_core {C : Codecs} {T F : String → Prop} (hC : LawfulCo
       | nil => rfl
       | cons a _ => simp at hdecl
     subst hm0
-    have hnil := layoutM_nil_reencodable c.marshal Fc.lm hreM
+    have hlen0 : lenFieldsM c.marshal = [] := by
+      cases hl : lenFieldsM c.marshal with
+      | nil => rfl
+      | cons a _ =>
+        have := hlenD a (by rw [hl]; exact List.mem_cons_self ..)
+        rw [hemp] at this; cases this
+    have hnil := layoutM_nil_reencodable c.marshal Fc.lm hreM hlen0
     have h1 : runM C c d = .ok { env := d } := by unfold runM; rw [hnil, runMStmts]
     have h2 : runM C c env = .ok { env := env } := by unfold runM; rw [hnil, runMStmts]
     rw [h2] at hrun
